@@ -5,7 +5,6 @@
 package kfl
 
 import (
-	"bufio"
 	"encoding/base64"
 	"errors"
 	"fmt"
@@ -565,9 +564,10 @@ func redactXml(obj interface{}, path string) (xmlValue []byte, err error) {
 	}
 	xmlValue, err = mv.Xml()
 	if len(nextXML) > 2 && nextXML[0:2] == "<?" {
-		scanner := bufio.NewScanner(strings.NewReader(nextXML))
-		scanner.Scan()
-		xmlValue = []byte(fmt.Sprintf("%s\n%s", scanner.Text(), string(xmlValue)))
+		// Keep the declaration itself, not the line it is on: the root element may follow on the same line
+		if end := strings.Index(nextXML, "?>"); end >= 0 {
+			xmlValue = []byte(fmt.Sprintf("%s\n%s", nextXML[:end+2], string(xmlValue)))
+		}
 	}
 
 	if base64Encode {
